@@ -87,6 +87,8 @@ func attachFrames() map[string][]byte {
 		"rst-flow1":    eth(0x0800, ip4(6, "203.0.113.77", "198.18.0.2", tcp(443, 40001, 0x04))),
 		"rst-flow2":    eth(0x0800, ip4(6, "203.0.113.78", "198.18.0.2", tcp(443, 40002, 0x04))),
 		"arp":          eth(0x0806, make([]byte, 28)),
+		// a perfectly good time-exceeded, but inside a frame of another EtherType (local experimental)
+		"icmp-te-in-foreign-ethertype": eth(0x88b5, ip4(1, "100.64.0.2", "198.18.0.2", []byte{11, 0, 0, 0, 0, 0, 0, 0})),
 	}
 }
 
@@ -95,7 +97,15 @@ func attachFrames() map[string][]byte {
 func refFor(name string) func(f []byte) bool {
 	switch name {
 	case "none":
-		return func([]byte) bool { return true }
+		// no filter: everything that is an IP frame (every filter program starts by rejecting other EtherTypes, so the
+		// unfiltered handle must not hand those out either, or enabling a filter would change what the run sees)
+		return func(f []byte) bool {
+			if len(f) < 14 {
+				return false
+			}
+			et := binary.BigEndian.Uint16(f[12:])
+			return et == 0x0800 || et == 0x86dd
+		}
 	case "icmp":
 		return func(f []byte) bool { return refICMP(f, false) }
 	case "udp":
